@@ -175,8 +175,24 @@ theorem C11_full_false : ¬ C11_Full := by
 /-! ### OBJECT_CONSTRUCT, FLATTEN, SPLIT -/
 
 /-- **OBJECT_CONSTRUCT drops NULL-valued pairs** — when every NULL among the arguments is the literal `NULL` -/
-theorem C11_object_construct_partial (ps : Pairs) (h : noHiddenNull ps = true) :
-    objectConstructImpl ps = objectConstructSpec ps := objectConstruct_partial ps h
+theorem C11_object_construct_partial (ps : Pairs) (h : noHiddenNull ps = true) (hne : objectConstructSpec ps ≠ []) :
+    objectConstructDuck ps = .ok (objectConstructSpec ps) := by
+  unfold objectConstructDuck
+  rw [objectConstruct_partial ps h]
+  cases hs : objectConstructSpec ps with
+  | nil => exact absurd hs hne
+  | cons a l => rfl
+
+/-- C11/object-construct-empty — `OBJECT_CONSTRUCT()` (or one whose pairs are all dropped) is a ParserException
+    instead of `{}` -/
+theorem finding_object_construct_empty :
+    objectConstructDuck [(some (s "a"), .litNull)] = .error .parser ∧ objectConstructSpec [(some (s "a"), .litNull)] = [] :=
+  ⟨rfl, rfl⟩
+
+/-- C11/array-literal-native-list, C11/array-literal-heterogeneous — an array literal is not turned into a JSON
+    document: it comes back as a native list, or fails when the items differ in type -/
+theorem finding_array_literal :
+    arrayLitImpl [.num 1, .num 2] = .native [.num 1, .num 2] ∧ arrayLitImpl [.num 1, .str (s "a")] = .err := by decide
 
 /-- … and then no NULL survives while every other pair does, in order -/
 theorem C11_object_construct_drops (ps : Pairs) :
